@@ -1970,8 +1970,13 @@ class _GroupElem(ABC):
         _types.IntArray
             nearby elements
         """
-        # Retrieve the closest nodes
-        closest_nodes = self._Get_nearby_nodes(coordinates_n)
+        # Retrieve the closest nodes. The node closest to a point does not always belong to the
+        # element containing that point (about 2% of the points of a tetrahedral mesh), so the
+        # 2^dim closest nodes are used to collect the candidate elements.
+        k = min(self.coord.shape[0], 2**self.dim)
+        tree = spatial.KDTree(self.coord)
+        _, closest_node_indices = tree.query(coordinates_n, k=k)
+        closest_nodes = self.nodes[np.unique(np.asarray(closest_node_indices).ravel())]
 
         # Retrieve the elements associated with these nodes
         all_elements = self.Get_Elements_Nodes(closest_nodes, exclusively=False)
